@@ -72,8 +72,11 @@ pub fn exec(case: &Value) -> Vec<Value> {
     let limit = get_u(case, "limit");
     let lt = get_str(case, "ltype");
     let seed = case.get("seed").and_then(|x| x.as_u64()).unwrap_or(0);
-    let (b1, ended, st) = run(&sizes, sort, shuffle, pf, limit, lt, seed);
-    let (b2, _, _) = run(&sizes, sort, shuffle, pf, limit, lt, seed);
+    // "unlimited": the limit handed to the library is 2^40 (far beyond every stream, and times the prefetch factor still
+    // far from overflow); the record carries the case's limit 5 * 10^8 (TLC integers are 32-bit and the model multiplies by the prefetch factor), which also exceeds every stream
+    let used = if get_bool(case, "unlimited") { 1usize << 40 } else { limit };
+    let (b1, ended, st) = run(&sizes, sort, shuffle, pf, used, lt, seed);
+    let (b2, _, _) = run(&sizes, sort, shuffle, pf, used, lt, seed);
     vec![json!({"st": st, "kind": "batched", "sizes": sizes, "sort": sort, "shuffle": shuffle, "pf": pf,
                 "limit": limit, "ltype": lt, "seed": seed, "batches": b1, "batches2": b2, "ended": ended,
                 "case": case})]
@@ -98,6 +101,12 @@ pub fn gen(seed: u64, n: usize) -> Vec<Value> {
                 let limit = [255usize, 256, 65535, 65536, 140000, 300000][rng.random_range(0..6)];
                 return json!({"kind": "batched", "sizes": big, "sort": rng.random_bool(0.5), "shuffle": rng.random_bool(0.5),
                               "pf": rng.random_range(0..=3), "limit": limit, "ltype": "padded", "seed": rng.random::<u32>()});
+            }
+            if i % 25 == 5 || i == 1 {
+                // "no limit": one batch with everything, for both limit types
+                return json!({"kind": "batched", "sizes": sizes, "sort": rng.random_bool(0.5), "shuffle": rng.random_bool(0.5),
+                              "pf": rng.random_range(0..=3), "limit": 500000000u64, "unlimited": true,
+                              "ltype": if rng.random_bool(0.5) { "count" } else { "padded" }, "seed": rng.random::<u32>()});
             }
             if i % 25 == 4 {
                 // many items per batch: counts beyond 8 bits
